@@ -64,6 +64,23 @@ FALLBACK = {
     "truncate_front": "truncateFront", "clear": "clear", "remove": "remove",
     "make_contiguous": "makeContiguous",
 }
+# the iterator layer (`src/iter.rs`): free function / methods of `impl Iter`, as (generated name,
+# regex of the enclosing impl header or None, Rust fn name, hand-model counterpart)
+ITER_FRAGMENT = [
+    ("translate_range_bounds", None, "translate_range_bounds", "translateRange"),
+    ("Iter_empty", r"impl<'a, T> Iter<'a, T>", "empty", "pure Iter.empty"),
+    ("Iter_new", r"impl<'a, T> Iter<'a, T>", "new", "Iter.new"),
+    ("Iter_advance_front_by", r"impl<'a, T> Iter<'a, T>", "advance_front_by", "Iter.advanceFrontBy"),
+    ("Iter_advance_back_by", r"impl<'a, T> Iter<'a, T>", "advance_back_by", "Iter.advanceBackBy"),
+    ("Iter_over_range", r"impl<'a, T> Iter<'a, T>", "over_range", "Iter.overRange"),
+    ("Iter_len", r"impl<T> ExactSizeIterator for Iter<'_, T>", "len", "Iter.len"),
+]
+PANIC_TAG = {
+    "range start index exceeds maximum usize": "range_start_overflow",
+    "range end index exceeds maximum usize": "range_end_overflow",
+    "range end index {} out of range for buffer of length {}": "range_end",
+    "range starts at index {start} but ends at index {end}": "range_order",
+}
 ASSERT_TAG = {"i index out-of-bounds": "swap_i", "j index out-of-bounds": "swap_j"}
 LEAN_KW = {"end", "from", "at", "in", "do", "then", "else", "fun", "let", "have", "show", "open", "by",
            "match", "with", "if", "where", "instance", "class", "structure", "def", "theorem", "this"}
@@ -110,6 +127,21 @@ def find_fn(src, name):
         d += (c == "{") - (c == "}")
         j += 1
     return sig, src[i:j]
+
+
+def find_fn_in(src, impl_re, name):
+    """like find_fn, restricted to the block of the first impl whose header matches `impl_re`"""
+    if impl_re is None:
+        return find_fn(src, name)
+    m = re.search(re.escape(impl_re).replace("\\ ", r"\s+"), src)
+    if not m:
+        raise TErr(f"impl block `{impl_re}` not found")
+    i = src.index("{", m.end())
+    d, j = 1, i + 1
+    while d:
+        d += (src[j] == "{") - (src[j] == "}")
+        j += 1
+    return find_fn(src[i:j], name)
 
 
 # ----------------------------------------------------------------------------- tokens
@@ -283,6 +315,9 @@ class Parser:
         if self.at("!"):
             self.eat()
             return ("not", self.unary())
+        if self.at("*"):
+            self.eat()
+            return ("deref", self.unary())
         return self.postfix()
 
     def args(self):
@@ -396,6 +431,20 @@ class Parser:
             self.eat()
             if v.endswith("!"):
                 return ("macro", v[:-1], self.args())
+            if v == "Self" and self.at("{"):
+                self.eat("{")
+                fields = []
+                while not self.at("}"):
+                    fname = self.eat(kind="id")
+                    if self.at(":"):
+                        self.eat()
+                        fields.append((fname, self.expr()))
+                    else:
+                        fields.append((fname, ("path", fname)))
+                    if self.at(","):
+                        self.eat()
+                self.eat("}")
+                return ("selflit", fields)
             if self.at("("):
                 return ("call", v, self.args())
             return ("path", v)
@@ -414,7 +463,7 @@ class Parser:
             sub = self.mpattern()
             self.eat(")")
             return ("mctor", name, sub)
-        if name in ("None",):
+        if name in ("None", "Bound::Unbounded"):
             return ("mctor", name, None)
         return ("mvar", name)
 
@@ -432,6 +481,7 @@ class Emit:
         self.fname = fname
         self.fragment = fragment
         self.tmp = 0
+        self.iter_mode = False   # `self` is an `Iter { right, left }` value named `it`
         self.guards = set()   # local structs whose Drop impl drops a slice in place
         self.scope_guards = []  # guard values declared in the function body, in declaration order
         self.kinds = {}       # variable -> kind ('nat','slot','elem','view','range','pair:view','opt:nat',...)
@@ -454,6 +504,20 @@ class Emit:
             if n in self.kinds:
                 return [], lean_name(n), self.kinds[n]
             raise TErr(f"unknown name {n}")
+        if k == "deref":
+            return self.ex(e[1])
+        if k == "selflit":
+            vals = {}
+            pre = []
+            for fname, fe in e[1]:
+                p, v, kk = self.ex(fe)
+                pre += p
+                vals[fname] = v
+            if set(vals) != {"right", "left"}:
+                raise TErr("struct literal of an unknown shape")
+            return pre, f"(⟨{vals['right']}, {vals['left']}⟩ : Iter)", "iter"
+        if k == "field" and self.iter_mode and e[1] == ("path", "self") and e[2] in ("right", "left"):
+            return [], f"it.{e[2]}", "view"
         if k == "field":
             if e[1] == ("path", "self") and e[2] in ("size", "start"):
                 return [], f"(← getBuf).{e[2]}", "nat"
@@ -574,6 +638,29 @@ class Emit:
             t = self.fresh()
             f = "amod" if name == "add_mod" else "smod"
             return pre + [f"let {t} ← {f} {' '.join(vals)}"], t, "nat"
+        if name == "Self::empty" and not args:
+            return [], "Iter.empty" if "Iter_empty" not in self.fragment else "(← Gen.Iter_empty)", "iter"
+        if name == "Self::new":
+            return [], "(← Gen.Iter_new)", "iter"
+        if name == "translate_range_bounds":
+            if len(args) != 2 or self.kinds.get(args[1][1] if args[1][0] == "path" else None) != "rangebounds":
+                raise TErr("translate_range_bounds: unexpected arguments")
+            t = self.fresh("r")
+            return [f"let {t} ← Gen.translate_range_bounds sb eb"], t, "tuple:nat,nat"
+        if name == "slice_take":
+            # slice_take(&mut self.right, ..n) / (&mut self.left, n..): the slice keeps the other part
+            a0, a1 = args
+            if not (self.iter_mode and a0[0] == "ref" and a0[1] and a0[2][0] == "field"
+                    and a0[2][1] == ("path", "self") and a0[2][2] in ("right", "left") and a1[0] == "range"):
+                raise TErr("slice_take: unexpected arguments")
+            fld = a0[2][2]
+            if a1[1] is None and a1[2] is not None:
+                p, n, _ = self.ex(a1[2]); fn = "takeTo"
+            elif a1[1] is not None and a1[2] is None:
+                p, n, _ = self.ex(a1[1]); fn = "takeFrom"
+            else:
+                raise TErr("slice_take: unsupported range")
+            return p + [f"let it : Iter := {{ it with {fld} := (View.{fn} it.{fld} {par(n)}).2 }}"], "()", "unit"
         if name == "Some":
             p, v, kk = self.ex(args[0])
             return p, f"some {par(v)}", "opt"
@@ -650,6 +737,27 @@ class Emit:
                 return p + [f"let {t} := {k}", f"if {t} ≤ (← getBuf).cap then pure () else raise .oob",
                             f"setItems (rotl (← getBuf).items (← getBuf).cap {t})"], "()", "unit"
             raise TErr(f"unsupported method .{name}() on items")
+        if recv[0] == "path" and self.kinds.get(recv[1]) == "bufref":
+            if name == "len" and not args:
+                return [], "(← getBuf).size", "nat"
+            if name == "as_slices" and not args:
+                t = self.fresh("r")
+                return [f"let {t} ← Gen.as_slices"], t, "tuple:view,view"
+            raise TErr(f"unsupported method .{name}() on the buffer reference")
+        if recv[0] == "path" and self.kinds.get(recv[1]) == "rangebounds" and not args:
+            if name == "start_bound":
+                return [], "sb", "bound"
+            if name == "end_bound":
+                return [], "eb", "bound"
+        if recv[0] == "path" and self.kinds.get(recv[1]) == "iter" and ("Iter_" + name) in self.fragment:
+            pre, vals = [], []
+            for a in args:
+                p, v, _ = self.ex(a)
+                pre += p; vals.append(par(v))
+            n = lean_name(recv[1])
+            return pre + [f"let {n} ← Gen.Iter_{name} {n} {' '.join(vals)}"], "()", "unit"
+        if recv == ("path", "self") and self.iter_mode:
+            raise TErr(f"call to self.{name} in the iterator layer")
         if recv[0] == "path" and self.kinds.get(recv[1]) == "range" and name == "is_empty" and not args:
             n = lean_name(recv[1])
             return [], f"¬ ({n}.1 < {n}.2)", "prop"
@@ -675,6 +783,20 @@ class Emit:
         if name == "checked_sub":
             p2, b, _ = self.ex(args[0])
             return p + p2, f"checkedSub {par(v)} {par(b)}", "opt"
+        if name == "checked_add":
+            p2, b, _ = self.ex(args[0])
+            return p + p2, f"checkedAdd {par(v)} {par(b)}", "optnat"
+        if name in ("saturating_add", "saturating_sub", "wrapping_add", "wrapping_sub") and kk == "nat" and len(args) == 1:
+            p2, b, _ = self.ex(args[0])
+            term = {"saturating_add": f"min ({v} + {b}) (W - 1)", "saturating_sub": f"{par(v)} - {par(b)}",
+                    "wrapping_add": f"({v} + {b}) % W", "wrapping_sub": f"({v} + W - {b}) % W"}[name]
+            return p + p2, term, "nat"
+        if name == "expect" and kk == "optnat" and args and args[0][0] == "str":
+            tag = PANIC_TAG.get(args[0][1], args[0][1])
+            t = self.fresh("x")
+            return p + [f"let {t} ← (match {v} with | some v => pure v | none => raise (.doc \"{tag}\"))"], t, "nat"
+        if name == "len" and kk == "view" and not args:
+            return p, f"{par(v)}.len", "nat"
         if name in ("split_at", "split_at_mut"):
             p2, b, _ = self.ex(args[0])
             t = self.fresh("sp")
@@ -745,6 +867,11 @@ class Emit:
             return p
         if s[0] == "assign":
             op, lhs, rhs = s[1], s[2], s[3]
+            if self.iter_mode and op == "=" and lhs[0] == "field" and lhs[1] == ("path", "self") and lhs[2] in ("right", "left"):
+                p, v, kk = self.ex(rhs)
+                if kk != "view":
+                    raise TErr("assignment of a non-slice to an iterator field")
+                return p + [f"let it : Iter := {{ it with {lhs[2]} := {v} }}"]
             if not (lhs[0] == "field" and lhs[1] == ("path", "self") and lhs[2] in ("size", "start")):
                 raise TErr("assignment to something other than self.size / self.start")
             setter = "setSize" if lhs[2] == "size" else "setStart"
@@ -778,7 +905,7 @@ class Emit:
             msg = args[1][1] if len(args) > 1 and args[1][0] == "str" else ""
             if name == "debug_assert":
                 return p + [f'dassert (decide ({c})) "{msg}"']
-            tag = ASSERT_TAG.get(msg, msg)
+            tag = ASSERT_TAG.get(msg, PANIC_TAG.get(msg, msg))
             return p + [f'if {c} then pure () else raise (.doc "{tag}")']
         if name == "debug_assert_eq":
             pa, a, _ = self.ex(args[0])
@@ -794,9 +921,12 @@ class Emit:
             return "()"
         if k == "mvar":
             self.kinds[pat[1]] = "elem" if skind in ("opt", "res") else "nat"
+            if skind == "bound":
+                self.kinds[pat[1]] = "nat"
             return lean_name(pat[1])
         name, sub = pat[1], pat[2]
-        ctor = {"Some": "some", "None": "none", "Ok": "Except.ok", "Err": "Except.error"}.get(name)
+        ctor = {"Some": "some", "None": "none", "Ok": "Except.ok", "Err": "Except.error",
+                "Bound::Included": "Bound.incl", "Bound::Excluded": "Bound.excl", "Bound::Unbounded": "Bound.unb"}.get(name)
         if not ctor:
             raise TErr(f"pattern {name}(..)")
         if sub is None:
@@ -822,6 +952,8 @@ class Emit:
         p, cv, _ = self.ex(c)
         tb = self.block_unit(th)
         eb = self.block_unit(el) if el else ["pure ()"]
+        if self.iter_mode and any("let it" in l for l in tb + eb):
+            raise TErr("the iterator is updated inside a conditional that is not the end of the body")
         return p + [f"if {cv} then do"] + ind(tb) + ["else do"] + ind(eb)
 
     def block_unit(self, b):
@@ -969,7 +1101,8 @@ def lean_type(rt):
     return table[rt]
 
 
-def parse_sig(sig):
+def parse_sig(sig, iter_mode=False):
+    recv_mut = False
     sig = sig.strip()
     i = sig.index("(")
     d, j = 1, i + 1
@@ -983,8 +1116,21 @@ def parse_sig(sig):
     elif rest:
         raise TErr(f"signature tail {rest!r}")
     params = []
-    for p in [x.strip() for x in plist.split(",") if x.strip()]:
+    if ret and re.search(r"\bwhere\b", ret):
+        ret = re.split(r"\bwhere\b", ret)[0].strip()
+    plist_items, depth, cur = [], 0, ""
+    for ch in plist:
+        depth += (ch in "<([") - (ch in ">)]")
+        if ch == "," and depth == 0:
+            plist_items.append(cur); cur = ""
+        else:
+            cur += ch
+    plist_items.append(cur)
+    for p in [x.strip() for x in plist_items if x.strip()]:
         if p in ("&self", "&mut self", "self", "mut self"):
+            if iter_mode:
+                params.append(("it", "Iter", "iter"))
+                recv_mut = p == "&mut self"
             continue
         n, t = [x.strip() for x in p.split(":", 1)]
         n = n.replace("mut ", "")
@@ -994,9 +1140,46 @@ def parse_sig(sig):
             params.append((n, "Elem", "elem"))
         elif t == "Range<usize>":
             params.append((n, "Nat × Nat", "range"))
+        elif iter_mode and re.fullmatch(r"&('\w+ )?CircularBuffer<N, T>", t):
+            params.append((n, None, "bufref"))
+        elif iter_mode and t == "R":
+            params.append((n, None, "rangebounds"))
         else:
             raise TErr(f"parameter type {t}")
+    if iter_mode:
+        if ret == "Self":
+            return params, ("Iter", "iter")
+        if ret in (None, "()") and recv_mut:
+            return params, ("Iter", "iter!")         # `&mut self`, unit: the updated iterator is returned
+        if ret and re.sub(r"\s+", "", ret) == "(usize,usize)":
+            return params, ("Nat × Nat", "tuple:nat,nat")
     return params, lean_type(ret)
+
+
+def translate_iter(src, gname, impl_re, fname, fragment):
+    """a function of the iterator layer: `self` (if any) is an `Iter` value `it`; the buffer reference
+    is the state; a `RangeBounds` argument is the pair of bounds `sb eb`"""
+    sig, body = find_fn_in(src, impl_re, fname)
+    body = re.sub(r"#!?\[[^\]]*\]", "", body)
+    params, (rty, rkind) = parse_sig(sig, iter_mode=True)
+    ast = Parser(tokenize(body)).block()
+    em = Emit(gname, fragment)
+    em.iter_mode = True
+    lean_params = []
+    for n, t, kk in params:
+        em.kinds[n] = kk
+        if kk == "rangebounds":
+            lean_params += [("sb", "Bound"), ("eb", "Bound")]
+        elif kk != "bufref":
+            lean_params.append((n, t))
+    lines = em.body(ast[1], ast[2])
+    if rkind == "iter!":
+        # tails in the body are unit: hand the updated iterator back
+        lines = [re.sub(r"^(\s*)pure \(\)$", r"\1pure it", l) for l in lines]
+        rkind = "iter"
+    ps = "".join(f" ({lean_name(n)} : {t})" for n, t in lean_params)
+    head = f"/-- translated from `fn {fname}` ({impl_re or 'free function of iter.rs'}) -/\ndef Gen.{gname}{ps} : M ({rty}) := do"
+    return head + "\n" + "\n".join(ind(lines)), rkind, [t for _, t in lean_params], rty
 
 
 def translate(src, name, fragment):
@@ -1087,6 +1270,29 @@ def main():
                  f"def Gen.{n} : {ptys} := {FALLBACK[n]}")
     defs = [fb[n] for n in FRAGMENT if n in fb] + [texts[n] for n in order if n in texts]
     done = {n: 1 for n in FRAGMENT}
+    # ---- the iterator layer (src/iter.rs), in the order of ITER_FRAGMENT (callees first)
+    import os
+    ipath = os.path.join(os.path.dirname(os.path.abspath(sys.argv[1])), "iter.rs")
+    ITER_SIG = {"translate_range_bounds": "Bound → Bound → M (Nat × Nat)", "Iter_empty": "M (Iter)", "Iter_new": "M (Iter)",
+                "Iter_advance_front_by": "Iter → Nat → M (Iter)", "Iter_advance_back_by": "Iter → Nat → M (Iter)",
+                "Iter_over_range": "Bound → Bound → M (Iter)", "Iter_len": "Iter → M (Nat)"}
+    try:
+        isrc = strip_comments(open(ipath).read())
+    except OSError:
+        isrc = ""
+    iter_names = {g for g, _, _, _ in ITER_FRAGMENT}
+    for gname, impl_re, fname, model in ITER_FRAGMENT:
+        try:
+            text, rk, ptys, rty = translate_iter(isrc, gname, impl_re, fname, set(done) | iter_names)
+            if " → ".join(ptys + [f"M ({rty})"]) != ITER_SIG[gname]:
+                raise TErr(f"signature changed: {' → '.join(ptys + [rty])}")
+            defs.append(text)
+        except Exception as e:
+            why = (str(e) if isinstance(e, TErr) else f"internal: {type(e).__name__}: {e}").replace("-/", "- /")
+            failed.append((gname, why))
+            defs.append(f"/-- `{gname}` could not be translated on this run ({why}): the hand model\'s definition -/\n"
+                        f"def Gen.{gname} : {ITER_SIG[gname]} := {model}")
+        done[gname] = 1
     L = ["-- GENERATED by /verif/translate/t3_core.py from /repo/src/lib.rs — do not edit.",
          "import CircBuf.GenPrelude", "import CircBuf.Model", "set_option linter.unusedVariables false", "namespace CircBuf", ""]
     L.append("\n\n".join(defs))
@@ -1104,7 +1310,7 @@ def main():
     for n, why in failed:
         print(f"T3: cannot translate `{n}`: {why}")
     ntr = len(done) - len(failed)
-    print(f"T3: {'unchanged' if old == text else 'regenerated'}: {ntr}/{len(FRAGMENT)} functions translated")
+    print(f"T3: {'unchanged' if old == text else 'regenerated'}: {ntr}/{len(FRAGMENT) + len(ITER_FRAGMENT)} functions translated")
     sys.exit(0 if ntr else 3)
 
 
